@@ -528,7 +528,9 @@ def r4_r5_r7_load(ctx, R4="C02.R4", R5="C02.R5", R7="C02.R7") -> None:
                     inv = m
                 ok = False
                 if inv is not None:
-                    ips = [q for q in ctx.paths(f"{BASE}.Hugr.{inv.name}") if q.kind == "return"]
+                    from .c03 import encoder_table
+                    table, dataflow, helpers = encoder_table(ctx)
+                    ips = [q for q in ctx.paths(f"{BASE}.Hugr.{inv.name}", inline=helpers) if q.kind == "return"]
                     ok = any(q.value_text() == "-1" for q in ips)
                 ctx.check(bool(ok), R5, f"Hugr._from_serial: {side} offset decoded", file, getattr(c, "lineno", eloop.lineno),
                           f"the serialized {side} offset `{u(off)}` reaches add_link without the inverse of _constrain_offset: an order edge "
@@ -536,55 +538,96 @@ def r4_r5_r7_load(ctx, R4="C02.R4", R5="C02.R5", R7="C02.R7") -> None:
                           "order links are lost or turned into value links", eloop,
                           expected="inverse of _constrain_offset (may yield -1)", found=u(off))
                 if ok and side == "source":
-                    _decoder_table(ctx, R5, hugr, inv, co)
+                    _decoder_table(ctx, R5, hugr, inv, table, dataflow, helpers)
                 if ok:
-                    dec_helpers = {call_name(x) for x in calls_in(inv)} - {None}
-                    shared = (enc_helpers & dec_helpers) - {"isinstance", "len", "int"}
-                    ctx.check(bool(shared), R5, f"Hugr._from_serial: {side} offset agrees with encoder", file, inv.lineno,
-                              "the order-port encoder and its inverse do not derive the order port's position from a common helper: "
-                              f"encoder uses {sorted(enc_helpers)}, decoder {sorted(dec_helpers)}", inv, detail=f"shared helper {sorted(shared)}")
+                    # (both sides go through the same decoder: judged once, reported per side)
+                    agree = _decoder_agrees(ctx, hugr, inv, table, dataflow, helpers)
+                    ctx.check(agree is None, R5, f"Hugr._from_serial: {side} offset agrees with encoder", file, inv.lineno,
+                              "the order-port encoder and its inverse do not place the order port at the same position: " + (agree or ""), inv,
+                              detail="every threshold the decoder compares with is the offset the encoder writes for that class of operation and direction")
 
 
-def _decoder_table(ctx, R5, hugr, inv, co) -> None:
-    """the decoder as a decision table over (offset given?, node has an order port?, offset below it?): whether the node has an
-    order port is decided by the encoder's own helper on both branches (Call is not a DataflowOp, yet has an order port)"""
-    file = hugr.module.path
+def _decoder_cases(ctx, hugr, inv, helpers):
+    """the return paths of the decoder (signature helpers seen through) as (path, classes established, classes ruled out, direction,
+    offset given?, [(threshold text with NODE_/DIRECTION_, offset below it?)])"""
+    from .c03 import _class_tests, _direction_of
+    from ..rulekit import unold_ast
     args = [a.arg for a in inv.args.args]
     if len(args) != 4:
         ctx.broken(f"Hugr.{inv.name}: expected (self, node, offset, direction)")
     _, node, off, direction = args
-    helpers = sorted(n for n in ({call_name(c) for c in calls_in(co)} & {call_name(c) for c in calls_in(inv)}) - {None, "isinstance", "len", "int"}
-                     if n in hugr.methods)
-    if not helpers:
-        return      # reported by the shared-helper instance below
-    oo = f"self.{helpers[0]}({node}, {direction})"
-    given, below = f"{off} is not None", f"{off} < {oo}"
-    from ..rulekit import answered, raised_privately
-    excs = raised_privately(hugr.methods[helpers[0]])
-    bad = None
-    n = 0
-    for q in ctx.paths(f"{BASE}.Hugr.{inv.name}"):
+    out = []
+    for q in ctx.paths(f"{BASE}.Hugr.{inv.name}", inline=helpers):
         if q.kind != "return":
             continue
-        n += 1
+        pos = _class_tests(q, True)
+        neg = _class_tests(q, False)
+        given = None
+        cmps = []
+        for t, k in q.tests:
+            t = unold_ast(t)
+            if isinstance(t, ast.Compare) and len(t.ops) == 1 and u(t.left) == off:
+                op, rhs = t.ops[0], t.comparators[0]
+                if isinstance(rhs, ast.Constant) and rhs.value is None and isinstance(op, (ast.Is, ast.IsNot)):
+                    given = k if isinstance(op, ast.IsNot) else not k
+                elif isinstance(op, (ast.Lt, ast.GtE)):
+                    txt = u(rhs).replace(f"self[{node}]", "self[NODE_]").replace(direction, "DIRECTION_")
+                    cmps.append((txt, k if isinstance(op, ast.Lt) else not k))
+                else:
+                    cmps.append((u(t), None))
+        out.append((q, set().union(*pos) if pos else set(), set().union(*neg) if neg else set(), _direction_of(q), given, cmps))
+    # whether the operation has an order port on each path: it has if the path established a class the encoder takes a signature for,
+    # it has not if the path ruled out every such way (by its own tests or in the handler of the helper's private exception)
+    from .c03 import _ruled_out
+    allp = ctx.paths(f"{BASE}.Hugr.{inv.name}", inline=helpers)
+    out = [(q, pos, _ruled_out(q, allp), d, g, c) for q, pos, neg, d, g, c in out]
+    return out, off
+
+
+def _decoder_agrees(ctx, hugr, inv, table, dataflow, helpers):
+    """None if every threshold the decoder compares an offset with is what the encoder writes for the same operations and direction,
+    else the disagreement"""
+    cases, off = _decoder_cases(ctx, hugr, inv, helpers)
+    seen = 0
+    for q, pos, neg, dirn, given, cmps in cases:
+        for txt, below in cmps:
+            want = table.get((frozenset(pos), dirn))
+            if want is None:
+                return f"the decoder compares with `{txt}` for {sorted(pos)} / {dirn}, a case the encoder has no signature offset for"
+            want_n = {w.replace("self[NODE_]", "self[NODE_]") for w in want}
+            if txt not in want_n:
+                return f"for {sorted(pos)} / {dirn} the encoder writes {sorted(want)} but the decoder compares with `{txt}`"
+            seen += 1
+    return None if seen else "the decoder never compares the offset with the position the encoder writes"
+
+
+def _decoder_table(ctx, R5, hugr, inv, table, dataflow, helpers) -> None:
+    """the decoder as a decision table over (offset given?, operation has an order port?, offset below it?): an operation has an
+    order port exactly when the encoder takes a signature for it (Call is not a DataflowOp, yet has one)"""
+    file = hugr.module.path
+    cases, off = _decoder_cases(ctx, hugr, inv, helpers)
+    sig_keys = [set(k_[0]) for k_ in table]
+    bad = None
+    for q, pos, neg, dirn, given, cmps in cases:
         v = q.value_text()
-        t = lambda tm, k: q.has_test(tm, k) is not None      # noqa: E731
-        has = answered(q, oo, excs)          # the helper says None / raises its private exception for a node without order port
+        has = True if pos & dataflow else (False if sig_keys and all(k_ & neg for k_ in sig_keys) else None)
+        below = cmps[0][1] if len(cmps) == 1 else None
         if v == "-1":
-            ok = has is True and (t(given, False) or t(below, False))
+            ok = has is True and (given is False or below is False)
         elif v == "0":
-            ok = t(given, False) and has is False
+            ok = given is False and has is False
         elif v == off:
-            ok = t(given, True) and (has is False or t(below, True))
+            ok = given is True and (has is False or below is True)
         else:
             ok = False
         if not ok:
             bad = q
             break
+    n = len(cases)
     ctx.check(bad is None and n >= 3, R5, f"Hugr.{inv.name}: decision table", file, inv.lineno,
-              f"the decoder must answer -1 exactly when `{oo}` is not None and the offset is absent or not below it, 0 only for an absent offset "
-              "on a node without order port, and the given offset otherwise; both branches must ask the encoder's helper whether the node has "
-              "an order port (a Call has one without being a DataflowOp)" + (f" [path {bad.describe()}]" if bad else ""),
+              "the decoder must answer -1 exactly when the operation has an order port and the offset is absent or not below it, 0 only for an "
+              "absent offset on an operation without order port, and the given offset otherwise; an operation has an order port when the encoder "
+              f"takes a signature for it ({sorted(dataflow)}: a Call has one without being a DataflowOp)" + (f" [path {bad.describe()}]" if bad else ""),
               bad.node if bad is not None and bad.node is not None else inv, found=bad.describe() if bad else "", detail=f"{n} return paths")
 
 
